@@ -749,6 +749,8 @@ class Interp(object):
                 # an unknown Exception subclass (host call-out): caught by `except Exception` only
                 if name in ('Exception', 'BaseException'):
                     return True
+                if name == 'XLError':
+                    continue     # call-outs fork 'raises an XLError' separately: AnyException stands for every other class
                 raise OutOfReach('unknown exception class against except %s' % name)
             if exc_isinstance(pr.cls, name):
                 return True
